@@ -23,7 +23,12 @@ Inductive dtev :=
 | XRecover
 | XRollback (e : Z)
 | XObserve (docs : list (Z * option Z))        (* Document(id) for the whole universe, as the implementation shows it now *)
-| XBoltEpochs (epochs : list Z).               (* RootBoltSnapshotEpochs, ascending *)
+| XBoltEpochs (epochs : list Z)                (* RootBoltSnapshotEpochs, ascending *)
+| XCopyDest (epoch : Z) (docs : list (Z * option Z))
+    (* the destination of an online copy taken from the root of [epoch], opened as an index *)
+| XDirBegin                                    (* a directory listing starts ... *)
+| XDirEnd (ids : list Z)                       (* ... and returned these segment files *)
+| XQuiescent (ids : list Z).                   (* directory listing once all background work has settled *)
 
 Definition tev_event (s : st) (t : tev) : option event :=
   match t with
@@ -41,7 +46,14 @@ Definition st_eqb_root (a b : st) : bool := proj_eqb (root a) (project (root b))
    another goroutine may have completed such a step without having logged it, so a crash explores
    both possibilities. *)
 Record xs := mkXs { x_d : dstate; x_eff : list batch; x_tags : list (Z * nat);
-                    x_ci : bool; x_pi : option (list Z) }.
+                    x_ci : bool; x_pi : option (list Z);
+                    x_req : list Z   (* files that had to exist when the current directory listing began *) }.
+
+(* the segment files that must exist right now (C12): named by a committed snapshot, backing a
+   segment of the current root, or scheduled for an online copy while present *)
+Definition required_files (d : dstate) : list Z :=
+  flat_map named_by (d_bolt d) ++ file_segs (root (d_core d))
+  ++ filter (fun id => mem_id id (d_files d)) (d_copy d).
 
 Definition tag_key : Z := 999.
 Definition tag_of (iops : list (Z * option Z)) : option Z :=
@@ -61,30 +73,30 @@ Definition xstep (x : xs) (e : dtev) : option xs :=
                                | EIntroduce _ _ io => match tag_of io with
                                                       | Some tg => (tg, d_batches d') :: x_tags x
                                                       | None => x_tags x end
-                               | _ => x_tags x end) (x_ci x) (x_pi x))
+                               | _ => x_tags x end) (x_ci x) (x_pi x) (x_req x))
               else None
           | None => None
           end
       | _, _ => None
       end
-  | XFile sid => option_map (fun d' => mkXs d' (x_eff x) (x_tags x) (x_ci x) (x_pi x)) (dstep d (DFileWritten sid))
+  | XFile sid => option_map (fun d' => mkXs d' (x_eff x) (x_tags x) (x_ci x) (x_pi x) (x_req x)) (dstep d (DFileWritten sid))
   | XPrepare ep segs ints =>
-      option_map (fun d' => mkXs d' (x_eff x) (x_tags x) (x_ci x) (x_pi x))
+      option_map (fun d' => mkXs d' (x_eff x) (x_tags x) (x_ci x) (x_pi x) (x_req x))
         (dstep d (DPrepare (mkBrec ep (map (fun p => let '(i, _, del, _) := p in (i, del)) segs) ints)))
-  | XCommitIntent => Some (mkXs d (x_eff x) (x_tags x) true (x_pi x))
-  | XCommit => option_map (fun d' => mkXs d' (x_eff x) (x_tags x) false (x_pi x)) (dstep d DCommit)
-  | XPurgeIntent eps => Some (mkXs d (x_eff x) (x_tags x) (x_ci x) (Some eps))
+  | XCommitIntent => Some (mkXs d (x_eff x) (x_tags x) true (x_pi x) (x_req x))
+  | XCommit => option_map (fun d' => mkXs d' (x_eff x) (x_tags x) false (x_pi x) (x_req x)) (dstep d DCommit)
+  | XPurgeIntent eps => Some (mkXs d (x_eff x) (x_tags x) (x_ci x) (Some eps) (x_req x))
   | XAck tg =>
       match assocZ tg (x_tags x) with
-      | Some k => option_map (fun d' => mkXs d' (x_eff x) (x_tags x) (x_ci x) (x_pi x)) (dstep d (DAck k))
+      | Some k => option_map (fun d' => mkXs d' (x_eff x) (x_tags x) (x_ci x) (x_pi x) (x_req x)) (dstep d (DAck k))
       | None => None
       end
-  | XPurge eps => option_map (fun d' => mkXs d' (x_eff x) (x_tags x) (x_ci x) None) (dstep d (DPurgeBolt eps))
-  | XRemoveZap sid => option_map (fun d' => mkXs d' (x_eff x) (x_tags x) (x_ci x) (x_pi x)) (dstep d (DRemoveZap sid))
-  | XCopyStart => option_map (fun d' => mkXs d' (x_eff x) (x_tags x) (x_ci x) (x_pi x)) (dstep d DCopyStart)
-  | XCopyEnd sids => option_map (fun d' => mkXs d' (x_eff x) (x_tags x) (x_ci x) (x_pi x)) (dstep d (DCopyEnd sids))
-  | XCrash => option_map (fun d' => mkXs d' (x_eff x) (x_tags x) false None) (dstep d DCrash)
-  | XRollback ep => option_map (fun d' => mkXs d' (x_eff x) (x_tags x) (x_ci x) (x_pi x)) (dstep d (DRollback ep))
+  | XPurge eps => option_map (fun d' => mkXs d' (x_eff x) (x_tags x) (x_ci x) None (x_req x)) (dstep d (DPurgeBolt eps))
+  | XRemoveZap sid => option_map (fun d' => mkXs d' (x_eff x) (x_tags x) (x_ci x) (x_pi x) (x_req x)) (dstep d (DRemoveZap sid))
+  | XCopyStart => option_map (fun d' => mkXs d' (x_eff x) (x_tags x) (x_ci x) (x_pi x) (x_req x)) (dstep d DCopyStart)
+  | XCopyEnd sids => option_map (fun d' => mkXs d' (x_eff x) (x_tags x) (x_ci x) (x_pi x) (x_req x)) (dstep d (DCopyEnd sids))
+  | XCrash => option_map (fun d' => mkXs d' (x_eff x) (x_tags x) false None []) (dstep d DCrash)
+  | XRollback ep => option_map (fun d' => mkXs d' (x_eff x) (x_tags x) (x_ci x) (x_pi x) (x_req x)) (dstep d (DRollback ep))
   | XRecover =>
       match dstep d DRecover with
       | Some d' =>
@@ -92,7 +104,7 @@ Definition xstep (x : xs) (e : dtev) : option xs :=
              deliberately discarded it (then d_acked is judged against the rollback point by the
              harness, which only acknowledges batches before it) *)
           let k := covered d in
-          Some (mkXs d' (firstn k (x_eff x)) (filter (fun p => Nat.leb (snd p) k) (x_tags x)) false None)
+          Some (mkXs d' (firstn k (x_eff x)) (filter (fun p => Nat.leb (snd p) k) (x_tags x)) false None [])
       | None => None
       end
   | XObserve docs =>
@@ -102,6 +114,25 @@ Definition xstep (x : xs) (e : dtev) : option xs :=
       then Some x else None
   | XBoltEpochs eps =>
       if list_eqb Z.eqb (map br_epoch (d_bolt d)) eps then Some x else None
+  | XCopyDest ep docs =>
+      match assocZ ep (d_pub d), assocZ ep (d_nb d) with
+      | Some (proot, _), Some k =>
+          if list_eqb pairZoZ_eqb (map (fun p => (fst p, root_lookup proot (fst p))) docs) docs
+             && list_eqb pairZoZ_eqb (map (fun p => (fst p, replay (firstn k (x_eff x)) (fst p))) docs) docs
+          then Some x else None
+      | _, _ => None
+      end
+  | XDirBegin => Some (mkXs d (x_eff x) (x_tags x) (x_ci x) (x_pi x) (required_files d))
+  | XDirEnd ids =>
+      (* a file that had to exist when the listing began and still has to exist now was there
+         all along, so the listing must contain it *)
+      if forallb (fun id => negb (mem_id id (required_files d)) || mem_id id ids) (x_req x)
+      then Some x else None
+  | XQuiescent ids =>
+      (* nothing but the files of the retained snapshots (and root.bolt) *)
+      if forallb (fun id => mem_id id ids) (required_files d)
+         && forallb (fun id => mem_id id (flat_map named_by (d_bolt d))) ids
+      then Some x else None
   end.
 
 (* at a crash: the unlogged completions that may have happened just before it *)
@@ -143,7 +174,7 @@ Inductive dcase :=
 | CDisk (evs : list dtev)
 | CRet (times : list Z) (epochs : list Z) (n : Z) (protected : list Z).   (* reserved: retention arithmetic *)
 
-Definition xinit : xs := mkXs dinit [] [] false None.
+Definition xinit : xs := mkXs dinit [] [] false None [].
 
 Definition dcheck (c : dcase) : bool :=
   match c with
